@@ -19,7 +19,7 @@ def run(ctx):
             if fs != "default":
                 r.rule += "@" + fs
         out += res
-    out.append(D.dedup_key_rule(ctx.syn, "C13"))
+    out.append(D.dedup_key_rule(ctx.syn, "C13", crate=ctx.mir("default")["ts_rs"]))
     from rules import templates as T
     out.append(T.generated_state_rule(ctx.syn, "C13", "C13.R7"))
     return out
